@@ -293,6 +293,14 @@ SendReady(t) ==
 RecvReady(t) ==
   /\ call[t] # NULL /\ call[t].op = "recv"
   /\ recvQ # <<>> \/ sclosed \/ (call[t].due >= 0 /\ now >= call[t].due)
+\* The receive queue length is changed while nothing is queued or held by a receiver (the drivers change it only
+\* then; what a resize does to queued messages is not specified here).  Calls that are waiting keep waiting with
+\* the deadline they started with: a deadline is measured from the call, whatever is reconfigured meanwhile.
+SetRQ(n) ==
+  /\ n >= 0 /\ recvQ = <<>> /\ \A p \in Pipe : rxHold[p] = NULL
+  /\ opt' = [opt EXCEPT !.rq = n]
+  /\ UNCHANGED <<now, sockVars, sendVars, recvVars, call, histVars>>
+
 CanInternal ==
   \/ \E t \in Thread : SendReady(t) \/ RecvReady(t)
   \/ \E p \in Pipe :
